@@ -661,6 +661,10 @@ func (p *versionParser) addNum(v value) bool {
 	if v > infinity {
 		p.lex.setErr("numerical component too large")
 	}
+	if p.Version.IsWildcard() {
+		// Whatever follows a wildcard is covered by it: "1.x.3" is "1.x".
+		return true
+	}
 	p.Version.addNum(v)
 	return true
 }
